@@ -335,3 +335,83 @@ def _pow2_axioms():
 
 
 CONTRACTS += [BuildRMassLumped(1), BuildRMassLumped(2), BuildRMassLumped(3)]
+
+
+# --------------------------------------------------------------------------- system matrix of a uniform component grid: Gram matrix of the hats + lambda on the diagonal
+# As for the smoothing matrix of C20 the grid is abstracted to TWO points with arbitrary index vectors (every entry of the real matrix is computed from one pair
+# of index vectors by the same loop body): the 2 x 2 matrix the real loops fill holds the Gram entries of the two hats, lambda added on the diagonal.
+def mass1d(l, p, q):
+    h = 1 / z3.ToReal(P.POW2(l))
+    return z3.If(p == q, 2 * h / 3, z3.If(z3.Or(p - q == 1, q - p == 1), h / 6, z3.RealVal(0)))
+
+
+def gram_uniform(levels, p, q):
+    r = z3.RealVal(1)
+    for k in range(len(levels)):
+        r = r * mass1d(levels[k], p[k], q[k])
+    return r
+
+
+class _TwoPoints(Contract):
+    trusted = True
+
+    def __init__(self, file, qualname, params, note, result):
+        self.file, self.qualname, self._params, self.note, self._result = file, qualname, params, note, result
+
+    def inputs(self, S):
+        d = {"self": Obj("TrapezoidalGrid", {})} if "." in self.qualname else {}
+        for p_ in self._params:
+            d[p_] = None
+        return d
+
+    def result(self, S, env):
+        return self._result(S, env)
+
+
+class BuildRMatrix(Contract):
+    file, qualname = FILE, "DensityEstimation.build_R_matrix"
+
+    def __init__(self, dim):
+        self.dim = dim
+        self.label = "DensityEstimation.build_R_matrix[any two grid points, dim=%d]" % dim
+
+    def inputs(self, S):
+        for ax in _pow2_axioms():
+            S.assume(ax, "def:pow2")
+        d = self.dim
+        S.ex.ghost["index_rows"] = [[S.int("p%d" % k) for k in range(d)], [S.int("q%d" % k) for k in range(d)]]
+        return {"self": Obj("DensityEstimation", dict(masslumping=False, dim=d, lambd=S.real("lambd"), debug=False, grid=Obj("TrapezoidalGrid", dict(numPoints=None)),
+                                                      log_util=Obj("LogUtility", {}))), "levelvec": Seq("list", [S.int("l%d" % k) for k in range(d)])}
+
+    def pre(self, S, env):
+        rows_ = S.ex.ghost["index_rows"]
+        return [("levels-at-least-one", z3.And(*[l >= 1 for l in env["levelvec"].items])),
+                ("index-vectors-nonnegative", z3.And(*[x >= 0 for r in rows_ for x in r])),
+                ("two-different-grid-points", z3.Or(*[a != b for a, b in zip(*rows_)]))]
+
+    def post(self, S, old, env, result):
+        from pyvc import values as Vv
+        ok = isinstance(result, Seq) and result.concrete and len(result.items) == 2 and all(isinstance(r, Seq) and r.concrete and len(r.items) == 2 for r in result.items)
+        if not ok:
+            return [Cl("returns-the-matrix", False, prop=True)]
+        lv = old["levelvec"].items
+        p, q = [[x + 1 for x in r] for r in S.ex.ghost["index_rows"]]
+        lam = old["self"].fields["lambd"]
+        e = lambda i, j: Vv.to_z3(result.items[i].items[j], True)  # noqa
+        return [Cl("returns-the-matrix", True, prop=True),
+                Cl("off-diagonal-entry-is-the-gram-entry-of-the-two-hats", e(0, 1) == gram_uniform(lv, p, q), prop=True),
+                Cl("matrix-is-symmetric", e(1, 0) == e(0, 1), prop=True),
+                Cl("diagonal-entries-are-the-gram-diagonal-plus-lambda", z3.And(e(0, 0) == gram_uniform(lv, p, p) + lam, e(1, 1) == gram_uniform(lv, q, q) + lam), prop=True)]
+
+    def model_to_input(self, model):
+        from pyvc import modelparse as mp
+        g = lambda k, dflt: int(mp.num(model.get(k, str(dflt))) or dflt)  # noqa
+        return {"kind": "C16.r_matrix", "dim": self.dim, "levelvec": [g("l%d" % k, 2) for k in range(self.dim)]}
+
+
+CONTRACTS += [_TwoPoints("sparseSpACE/Grid.py", "Grid.get_num_points", [], "number of grid points; the proof abstracts the grid to TWO points with arbitrary index vectors", lambda S, env: 2),
+              _TwoPoints("sparseSpACE/Utils.py", "get_cross_product_range_list", ["one_d_arrays"], "0-based index vectors of the grid points; here the two abstract points",
+                         lambda S, env: Seq("array", [Seq("array", list(r)) for r in S.ex.ghost["index_rows"]])),
+              BuildRMatrix(1), BuildRMatrix(2)]
+ASSUMPTIONS += ["build_R_matrix (without mass lumping): the grid is abstracted to two different points with arbitrary symbolic index vectors; dimensions 1-2; the 1-D mass factors of "
+                "hats of width h = 2^-l are 2h/3 (same node), h/6 (neighbours), 0 (farther)"]
